@@ -192,10 +192,33 @@ def coq_scan():
 
 
 def coq_makefile():
+    """_CoqProject lists every .v under coq/ (gen/ included, Extract/ excluded: those are run by
+    hand through coqc because they write files); regenerated when the file set changes."""
     mf = os.path.join(COQ, "Makefile")
     cp = os.path.join(COQ, "_CoqProject")
-    if not os.path.exists(mf) or os.path.getmtime(mf) < os.path.getmtime(cp):
+    vs = sorted(os.path.relpath(p, COQ) for p in glob.glob(os.path.join(COQ, "**", "*.v"), recursive=True)
+                if not os.path.relpath(p, COQ).startswith("Extract" + os.sep))
+    want = "-Q . PPLV\n-arg -w -arg -all\n" + "\n".join(vs) + "\n"
+    have = open(cp).read() if os.path.exists(cp) else ""
+    if want != have:
+        with open(cp, "w") as f:
+            f.write(want)
+    if not os.path.exists(mf) or want != have or os.path.getmtime(mf) < os.path.getmtime(cp):
         sh(["coq_makefile", "-f", "_CoqProject", "-o", "Makefile"], cwd=COQ, check=True)
+
+
+def coq_extract(vfile, outputs, deps=()):
+    """Run coq/Extract/<vfile> (which writes ocaml/gen/*.ml) when its outputs are stale."""
+    src = os.path.join(COQ, "Extract", vfile)
+    outs = [os.path.join(VERIF, "ocaml", "gen", o) for o in outputs]
+    os.makedirs(os.path.join(VERIF, "ocaml", "gen"), exist_ok=True)
+    with Lock("coq"):
+        dep_m = max([os.path.getmtime(src)] + [os.path.getmtime(os.path.join(COQ, d)) for d in deps if os.path.exists(os.path.join(COQ, d))])
+        if all(os.path.exists(o) and os.path.getmtime(o) >= dep_m for o in outs):
+            return
+        rc, out = sh(["coqc", "-Q", ".", "PPLV", os.path.join("Extract", vfile)], cwd=COQ, timeout=900)
+        if rc != 0 or not all(os.path.exists(o) for o in outs):
+            raise BuildError("extraction %s failed:\n%s" % (vfile, out[-4000:]))
 
 
 def coq_make(targets, timeout=3000):
@@ -276,10 +299,14 @@ def ocaml_build(name, mls, deps=()):
 # ----------------------------------------------------------------------------------------------
 
 def load_findings():
-    p = os.path.join(VERIF, "known_findings.json")
-    if not os.path.exists(p):
-        return []
-    return json.load(open(p)).get("findings", [])
+    """known_findings.json (committed; never written at run time) plus per-property fragments
+    known_findings.d/*.json (same format; merged here so that properties can be worked on separately)."""
+    out = []
+    ps = [os.path.join(VERIF, "known_findings.json")] + sorted(glob.glob(os.path.join(VERIF, "known_findings.d", "*.json")))
+    for p in ps:
+        if os.path.exists(p):
+            out += json.load(open(p)).get("findings", [])
+    return out
 
 
 class Check:
